@@ -212,6 +212,12 @@ def shard_random(sh, part, parts):
         pool_names = [n for n in HOSTILE if n != label] + ['c%d' % i for i in range(60)]
         names = rng.sample(pool_names, k - 1) if k > 1 else []
         via = 'mixed_rank_graph'
+        if t % 10 == 7 and len(names) >= 3:
+            # a column whose name is the empty string (a CSV written with its index has one) among the parents of 3MR relation features
+            hclass = '3mr'
+            if '' not in names:
+                names[0] = ''
+            names.sort(key=lambda n_: n_ != '')            # the empty name first: it becomes a parent of the relation features built below
         if hclass == '3mr' and len(names) >= 3:
             base = [n for n in names if ' AND ' not in n][:4]
             nrel = rng.randint(1, min(3, len(names) - 2))
